@@ -342,6 +342,13 @@ func runC05(p *Prog, r *Report, tier string) {
 			c.requireFailArm("G-fail", "original-sender==submitter", g, false)
 		}
 	}
+	// a replacement of a deposit re-emits the original amount, token and depositor (nothing new is burnt)
+	rdfbBodyObligations(p, r)
+	if c := p.fc(r, handlerFn(p, "ReplaceMessage"), "ReplaceMessage", abRPM); c != nil {
+		if call := c.oneCall("T-eq", "k.sendMessage"); call != nil {
+			c.teq("T-eq", "re-emitted-body", c.args(call)[6], "p2.NewMessageBody", p.instrPos(call))
+		}
+	}
 	// who may emit / debit / burn
 	sm := p.Func("keeper.msgServer.sendMessage")
 	callers := p.callerNames(sm)
@@ -694,24 +701,8 @@ func runC09(p *Prog, r *Report, tier string) {
 		c.requireFailArm("G-fail", "mint-burn-not-paused", notPaused(flagBM), false)
 		rejects = append(rejects, A("k.GetBurningAndMintingPaused(ctx)#0.Paused"), A("k.GetBurningAndMintingPaused(ctx)#1"))
 		c.exact("G-exact", rejects)
-		c.ab = abRPM[:8]
-		if bc := c.oneCall("T-eq", "(*types.BurnMessage).Bytes"); bc != nil {
-			c.checkLit("T-eq", "new-body", c.argTerms(bc)[0], "types.BurnMessage", map[string]string{
-				"Version": "B.Version", "BurnToken": "B.BurnToken", "MintRecipient": "p2.NewMintRecipient", "Amount": "B.Amount", "MessageSender": "B.MessageSender"}, p.instrPos(bc))
-		}
-		c.ab = abRPM[:10]
-		if bp := c.oneCall("T-eq", "(*types.BurnMessage).Parse"); bp != nil {
-			c.teq("T-eq", "parsed-body", c.args(bp)[1], "M.MessageBody", p.instrPos(bp))
-		}
-		if rc := c.oneCall("T-eq", "k.ReplaceMessage"); rc != nil {
-			c.checkLit("T-eq", "inner-replace", c.argTerms(rc)[1], "types.MsgReplaceMessage", map[string]string{
-				"From": "MODADDR", "OriginalMessage": "p2.OriginalMessage", "OriginalAttestation": "p2.OriginalAttestation", "NewMessageBody": "NEWBODY#0", "NewDestinationCaller": "p2.NewDestinationCaller"}, p.instrPos(rc))
-			c.mustPass("G-mpt", "inner-replace-before-success", []ssa.Instruction{rc}, c.successReturns())
-		}
-		if mp := c.oneCall("T-eq", "(*types.Message).Parse"); mp != nil {
-			c.teq("T-eq", "parsed-bytes", c.args(mp)[1], "p2.OriginalMessage", p.instrPos(mp))
-		}
 	}
+	rdfbBodyObligations(p, r)
 	for _, n := range []string{"ReplaceMessage", "ReplaceDepositForBurn"} {
 		fn := handlerFn(p, n)
 		var bad []string
@@ -731,6 +722,32 @@ func runC09(p *Prog, r *Report, tier string) {
 			okEv := ev == "*types.MessageSent" || (ev == "*types.DepositForBurn" && n == "ReplaceDepositForBurn")
 			r.check(okEv, "F-set", "F-set/"+n+"/event/"+ev, "", "documented event", n+" emits undocumented event "+ev)
 		}
+	}
+}
+
+// rdfbBodyObligations: the replacement body of ReplaceDepositForBurn keeps version, burn token,
+// amount and depositor of the original (attested) body and only takes the new mint recipient;
+// that body — and nothing else — is what the inner ReplaceMessage re-emits.
+func rdfbBodyObligations(p *Prog, r *Report) {
+	c := p.fc(r, handlerFn(p, "ReplaceDepositForBurn"), "ReplaceDepositForBurn", abRPM[:8])
+	if c == nil {
+		return
+	}
+	if bc := c.oneCall("T-eq", "(*types.BurnMessage).Bytes"); bc != nil {
+		c.checkLit("T-eq", "new-body", c.argTerms(bc)[0], "types.BurnMessage", map[string]string{
+			"Version": "B.Version", "BurnToken": "B.BurnToken", "MintRecipient": "p2.NewMintRecipient", "Amount": "B.Amount", "MessageSender": "B.MessageSender"}, p.instrPos(bc))
+	}
+	c.ab = abRPM[:10]
+	if bp := c.oneCall("T-eq", "(*types.BurnMessage).Parse"); bp != nil {
+		c.teq("T-eq", "parsed-body", c.args(bp)[1], "M.MessageBody", p.instrPos(bp))
+	}
+	if rc := c.oneCall("T-eq", "k.ReplaceMessage"); rc != nil {
+		c.checkLit("T-eq", "inner-replace", c.argTerms(rc)[1], "types.MsgReplaceMessage", map[string]string{
+			"From": "MODADDR", "OriginalMessage": "p2.OriginalMessage", "OriginalAttestation": "p2.OriginalAttestation", "NewMessageBody": "NEWBODY#0", "NewDestinationCaller": "p2.NewDestinationCaller"}, p.instrPos(rc))
+		c.mustPass("G-mpt", "inner-replace-before-success", []ssa.Instruction{rc}, c.successReturns())
+	}
+	if mp := c.oneCall("T-eq", "(*types.Message).Parse"); mp != nil {
+		c.teq("T-eq", "parsed-bytes", c.args(mp)[1], "p2.OriginalMessage", p.instrPos(mp))
 	}
 }
 
